@@ -9,7 +9,8 @@
 (* flags (bit set): 1 argument a changed, 2 argument b changed,            *)
 (*   4 result a is the argument object although its value differs,         *)
 (*   8 same for b, 16 a second identical call gave a different result,     *)
-(*   32 the call raised.                                                   *)
+(*   32 the call raised, 64 changing a returned object (not an argument)   *)
+(*   changed an argument or the result of a later identical call.          *)
 (* One TLC state per event; the verdict is computed in Next.               *)
 (* The module also checks the specification itself (ClauseOk): Common is   *)
 (* symmetric, idempotent and matches the three clauses of C11 6.3.1.8.     *)
@@ -38,7 +39,8 @@ Verdict(e) ==
             ra == T(B01(e[6]), e[7]) rb == T(B01(e[8]), e[9])
             fl == e[10]
             c == Common(a, b)
-        IN  IF fl >= 32 THEN "the call raised (not total)"
+        IN  IF (fl \div 32) % 2 = 1 THEN "the call raised (not total)"
+            ELSE IF fl >= 64 THEN "returned type shares state with an argument or a later result"
             ELSE IF ~ClauseOk(a, b) THEN "specification clause"
             ELSE IF ra # c \/ rb # c THEN "result is not the C11 common type"
             ELSE IF fl % 2 = 1 THEN "argument a was modified"
@@ -48,7 +50,8 @@ Verdict(e) ==
             ELSE "ok"
     ELSE
         LET t == T(B01(e[2]), e[3]) r == T(B01(e[4]), e[5]) fl == e[6]
-        IN  IF fl >= 32 THEN "the call raised (not total)"
+        IN  IF (fl \div 32) % 2 = 1 THEN "the call raised (not total)"
+            ELSE IF fl >= 64 THEN "returned type shares state with an argument or a later result"
             ELSE IF r # Promote(t) THEN "result is not the promoted type"
             ELSE IF fl % 2 = 1 THEN "argument was modified"
             ELSE IF (fl \div 4) % 2 = 1 THEN "result aliases an argument of a different type"
